@@ -177,12 +177,8 @@ pub fn check_generated(case: &CsrCase, info: &mut CaseInfo) -> Result<(), String
 			check_accepted(csr.der(), &p)?;
 			check_binding(csr.der(), p)
 		},
-		Err(e) => {
-			if crate::findings::c07_parse_back_refused(case, &e).is_some() {
-				info.class("known:K-P521-CSR-PARSE");
-				return Ok(());
-			}
-			// acceptance of generated requests is C07's subject; refusing is always sound
+		Err(_) => {
+			// acceptance of generated requests is C07's subject; refusing is always sound here
 			info.class("refused");
 			Ok(())
 		},
@@ -547,9 +543,9 @@ pub fn def() -> PropertyDef {
 		rule: "Byte strings offered as CSRs from three sources: (a) requests generated by rcgen over the C07 space for every key algorithm; (b) requests assembled by the harness encoder and signed by OpenSSL (every key type x SHA-256/384/512 incl. cross pairings such as P-384+SHA-256, subjects with repeated types / multi-valued RDNs / NumericString, supported and unsupported extension requests, challengePassword), each pre-accepted by OpenSSL's own parser and verifier; (c) 16..48 mutations (bit flip, overwrite, insert, delete, truncate, run overwrite, splice; offsets biased to CRI / SPKI / signature) per base request. Oracle: accepted => OpenSSL verifies the signature over the exact CRI bytes under a key rebuilt from the raw bytes and algorithm rcgen reports; issued certificate carries the request's SPKI bytes, subject, SANs, KU and EKU sets; unsupported requests must be refused. Non-trivial = accepted request, or mutant landing inside CRI/SPKI/signature.",
 		assumptions: vec!["OpenSSL EVP verification and X509_REQ parsing", "the harness decoder/encoder"],
 		subs: vec![
-			prop_sub("generated", 6_000, 300_000, || prop_oneof![1 => csr_case(false), 2 => crate::props::c07::roundtrip_case()].boxed(), check_generated),
-			prop_sub("foreign", 6_000, 300_000, foreign_csr, check_foreign),
-			prop_sub("mutants", 1_500, 100_000, mutant_case, check_mutants),
+			prop_sub("generated", 24_000, 300_000, || prop_oneof![1 => csr_case(false), 2 => crate::props::c07::roundtrip_case()].boxed(), check_generated),
+			prop_sub("foreign", 24_000, 300_000, foreign_csr, check_foreign),
+			prop_sub("mutants", 6_000, 100_000, mutant_case, check_mutants),
 		],
 	}
 }
